@@ -39,6 +39,12 @@ func runC09History(c *Ctx, idx int) {
 	gcfg := cfgForHistory(rng, idx)
 	cfg := rtx.Config(gcfg)
 	dir := c.TempDir(fmt.Sprintf("c09-%d", idx))
+	if idx%4 == 3 {
+		// a quarter of the histories on the disk-backed file system (inode reuse, real
+		// directory ordering) instead of tmpfs
+		dir = c.DiskDir(fmt.Sprintf("c09-%d", idx))
+		r.Count("histories_on_disk_fs", 1)
+	}
 	defer os.RemoveAll(dir)
 	hc := histCase{Prop: c.Prop, Seed: c.Seed, Index: idx, Gen: "runC09History", Cfg: gcfg.String()}
 	fail := func(props []string, sig, d string) {
